@@ -354,7 +354,7 @@ theorem C13_bucket_location_roundtrip (X : Ext) (tag : Bytes) (ns : Option Bytes
 
 /-- **The tokeniser reads back what the writer wrote.** For every well-nested event sequence (`WN`: element names of
 name bytes, attributes ` key="value"` with such names as keys and `"`-free values — the `xmlns` attribute and, since
-680006e, the attributes of a value —, texts non-empty, `<`-free and never adjacent; a text outside every
+680006e, the attributes of a value —, texts non-empty, free of `<` and of `]]>` and never adjacent; a text outside every
 element is white space — since d51737b the deserialiser refuses any other character data there) that begins with a
 tag, `Deserializer` over the written bytes sees exactly the written events — and everything the encoder produces for
 a schema with good element names is such a sequence (next theorem). -/
@@ -502,6 +502,19 @@ theorem C13_accepted_documents_wellformed_comment (X : Ext) :
     (∀ (root : Bytes) (s : Sch) (q : List QEv) (v : Val), decodeDoc X (.named root) s (deEvents q) = .ok v → QEv.err ∉ q) :=
   ⟨fun _ _ _ _ h => markup_comment h, fun _ _ _ _ h => decodeDoc_named_no_err X h⟩
 
+/-- **The character data of an accepted document holds no `]]>`** (XML 1.0 production [14]; the clause `cdata-end`
+of well-formedness; FULL since the repair fc97754 of `Deserializer::read_event` — until then a text with `]]>` passed like
+any other: finding `xml-illformed-accepted:cdata-end`, now fixed). For every token sequence `q` of a document, at every
+depth `d`, accepted or not: no text event the deserialiser is handed — read as the content of a scalar or skipped
+between elements — holds `]]>` (the specification's test, `XmlSpec.containsSub`, which is what `XmlSpec.charData`
+refuses; the model's test `hasCdataEnd` *is* that test); `read_event` answers `InvalidContent` instead, which ends every
+run. `]]>` stays what it is inside a CDATA section's end, in comments, PIs and attribute values, and written as
+`]]&gt;` (the serialiser writes every `>` that way: `C13_tokenize_write` and the round-trip theorems are untouched). -/
+theorem C13_accepted_documents_wellformed_cdata_end (q : List QEv) (d : Nat) :
+    (∀ raw, Ev.text raw ∈ deEventsAt d q → containsSub [93, 93, 62] raw = false) ∧
+    (∀ raw : Bytes, hasCdataEnd raw = containsSub [93, 93, 62] raw) :=
+  ⟨deEventsAt_text_clean q d, hasCdataEnd_eq⟩
+
 /-! ## meaning -/
 
 /-- **An accepted document is given its XML meaning** (FULL since the repairs c575458 and d365e05 of
@@ -644,5 +657,15 @@ example : (match decodeDoc { tsParse := fun _ _ => none } (.named t_Key) .str
 example : markup [33, 45, 45, 32, 45, 45, 32, 45, 45, 62] [] = none := by decide
 example : markup [33, 45, 45, 32, 45, 45, 45, 62] [] = none := by decide
 example : markup [33, 45, 45, 45, 45, 45, 62] [] = none := by decide
+
+/-- `C13_accepted_documents_wellformed_cdata_end` at work: `<Key>a]]>b</Key>` ends with `InvalidContent`, `<Key>a]]&gt;b</Key>`
+and `<Key>a]] >b</Key>` are read (the hypothesis `Ev.text raw ∈ …` is inhabited) -/
+example : deEvents (tokenize [60, 75, 101, 121, 62, 97, 93, 93, 62, 98, 60, 47, 75, 101, 121, 62])
+    = [.start t_Key [], .bad .invalidContent] := by decide
+example : (match decodeDoc { tsParse := fun _ _ => none } (.named t_Key) .str
+      (deEvents (tokenize [60, 75, 101, 121, 62, 97, 93, 93, 38, 103, 116, 59, 98, 60, 47, 75, 101, 121, 62])) with
+    | .ok (.str b) => b == [97, 93, 93, 62, 98] | _ => false) = true := by decide
+example : Ev.text [97, 93, 93, 32, 62, 98] ∈
+    deEvents (tokenize [60, 75, 101, 121, 62, 97, 93, 93, 32, 62, 98, 60, 47, 75, 101, 121, 62]) := by decide
 
 end S3V.C13
